@@ -30,6 +30,9 @@ type faultScn struct {
 		P    int    `json:"p"`    // parameter (new block index, byte position, ...)
 	} `json:"fault"`
 	Shape string `json:"shape"`
+	// RoDir: the file lies in a directory the sender lists WITHOUT owner write permission (0555) and the session
+	// preserves permissions (-p): after the transfer the receiver has a directory touch-up pass to run
+	RoDir bool `json:"rodir"`
 }
 
 type faultObs struct {
@@ -123,7 +126,12 @@ func faultHandler(w *workerCtx, line []byte) (any, error) {
 	if err := fstree.Reset(dest); err != nil {
 		return nil, err
 	}
-	fpath := filepath.Join(dest, "f")
+	fname := "f"
+	if s.RoDir {
+		fname = "ro/f"
+		os.MkdirAll(filepath.Join(dest, "ro"), 0o755)
+	}
+	fpath := filepath.Join(dest, fname)
 	if obs.HadOld {
 		if err := os.WriteFile(fpath, basis, 0o644); err != nil {
 			return nil, err
@@ -134,9 +142,14 @@ func faultHandler(w *workerCtx, line []byte) (any, error) {
 	lo := wirekit.ListOpts{}
 	fl := &wirekit.FileList{Entries: []wirekit.Entry{
 		{Name: ".", Size: 4096, Mtime: 2_000_000, Mode: wirekit.SIFDIR | 0o755, Flags: wirekit.XTopDir},
-		{Name: "f", Size: int64(len(target)), Mtime: 2_000_000, Mode: wirekit.SIFREG | 0o644},
+		{Name: fname, Size: int64(len(target)), Mtime: 2_000_000, Mode: wirekit.SIFREG | 0o644},
 	}}
-	args := []string{"-rt"}
+	rflags := "-rt"
+	if s.RoDir {
+		fl.Entries = append(fl.Entries, wirekit.Entry{Name: "ro", Size: 4096, Mtime: 2_000_000, Mode: wirekit.SIFDIR | 0o555})
+		rflags = "-rtp"
+	}
+	args := []string{rflags}
 	var p *drv.RecvPeer
 	var err error
 	if s.Recv == "daemon" {
@@ -145,7 +158,7 @@ func faultHandler(w *workerCtx, line []byte) (any, error) {
 			return nil, err
 		}
 		mod := &rsyncd.Module{Name: "m", Path: dest, Writable: true}
-		p = drv.StartServerReceiver(srv, mod, []string{"--server", "-rt", ".", "/"}, -1, -1, nil)
+		p = drv.StartServerReceiver(srv, mod, []string{"--server", rflags, ".", "/"}, -1, -1, nil)
 		err = p.ClientHandshake(false)
 		if err != nil {
 			return nil, fmt.Errorf("handshake: %w", err)
@@ -167,7 +180,11 @@ func faultHandler(w *workerCtx, line []byte) (any, error) {
 	curBasis := basis
 	rs := &wirekit.RefSender{In: p.In, Out: p.Out, Seed: p.Seed}
 	rs.Answer = func(req *wirekit.Request) (*wirekit.Answer, error) {
-		if req.Idx != 1 {
+		wantIdx := int32(1)
+		if s.RoDir {
+			wantIdx = 2 // ".", "ro", "ro/f"
+		}
+		if req.Idx != wantIdx {
 			return nil, fmt.Errorf("unexpected request for index %d", req.Idx)
 		}
 		a := wirekit.DeltaAnswer(p.Seed, req, target, 64)
@@ -326,10 +343,15 @@ func faultHandler(w *workerCtx, line []byte) (any, error) {
 	} else {
 		obs.Dst = "other"
 	}
-	ents, _ := os.ReadDir(dest)
+	cdir, keep := dest, "f"
+	if s.RoDir {
+		cdir = filepath.Join(dest, "ro")
+		os.Chmod(cdir, 0o755)
+	}
+	ents, _ := os.ReadDir(cdir)
 	var names []string
 	for _, e := range ents {
-		if e.Name() != "f" {
+		if e.Name() != keep {
 			names = append(names, e.Name())
 		}
 	}
